@@ -228,4 +228,8 @@ def run(ctx):
     # R07.5: a dependence says an identifier *may* reach the suite id; binding needs every byte of it to get there:
     # suite_id = "HPKE" || I2OSP(kem, 2) || I2OSP(kdf, 2) || I2OSP(aead, 2) exactly (a loop that stops one short keeps the dependence)
     c02.check_suite_ids(rep, facts, rule='R07.5')
+    # R07.6: likewise every piece handed to LabeledExtract / LabeledExpand is absorbed (all four / five components, in order):
+    # a loop that stops early keeps the static dependence but drops the binding
+    c02.check_labeled_extract(rep, facts, rule='R07.6')
+    c02.check_labeled_expand(rep, facts, rule='R07.6')
     rep.bodies_analysed = len(facts.body_list)
